@@ -163,3 +163,51 @@ def elems(f, t, point, n=4, depth=0):
 
 def same_elem(a, b, f=None, point=None):
     return canon(a, f, point) == canon(b, f, point)
+
+
+def look_through_calls(f, t, depth=0):
+    """Resolve projections of the results of crate-local functions: `helper(op).Some.0.3` becomes the term the helper
+    returns in that position (arms of the helper's result that are of another variant are dropped). Terms that are
+    not such projections come back unchanged."""
+    if not isinstance(t, tuple) or depth > 12:
+        return t
+    if t[0] == "ref":
+        b = look_through_calls(f, t[2], depth + 1)
+        return t if b is t[2] else ("ref", t[1], b)
+    if t[0] == "call" and isinstance(t[1], str) and f.facts is not None and f.facts.has_fn(t[1]) and len(t) > 3:
+        try:
+            r = inline_call(f, t, None)
+        except Exception:
+            r = None
+        return r if r is not None else t
+    if t[0] != "proj":
+        return t
+    b = look_through_calls(f, t[1], depth + 1)
+    if b is t[1]:
+        return t
+    return _project(f, b, t[2])
+
+
+def _project(f, b, pj):
+    if b[0] == "phi":
+        arms = []
+        for a in b[2]:
+            p = _project(f, a, pj)
+            if p is not None:
+                arms.append(p)
+        if not arms:
+            return None
+        if len(arms) == 1:
+            return arms[0]
+        return ("phi", b[1], tuple(arms))
+    if isinstance(pj, tuple) and pj[0] == "variant":
+        if b[0] == "agg" and isinstance(b[1], tuple) and b[1][0] == "adt":
+            # an aggregate of another variant cannot be projected to this one
+            if b[1][-1] != pj[2]:
+                return None
+            return b
+        return ("proj", b, pj)
+    if pj == "deref":
+        return b[2] if b[0] == "ref" else ("proj", b, pj)
+    r = f._proj1(b, pj)
+    return r
